@@ -206,7 +206,7 @@ def PI():
 @dispatcher.register_for('ROUND')
 def ROUND(number, digits):
     number = utils.parse_number(number)
-    digits = utils.parse_number(digits)
+    digits = utils.parse_integer(digits)
     if utils.any_is_error((number, digits)):
         return error.VALUE
     return round(number, digits)
@@ -367,7 +367,7 @@ def EVEN(number):
 @dispatcher.register_for('DECIMAL')
 def DECIMAL(text, base):
     text = str(text)
-    base = utils.parse_number(base)
+    base = utils.parse_integer(base)
     if isinstance(base, error.XLError):
         return base
     try:
@@ -386,7 +386,7 @@ def BASE(value, base, places=DEFAULT):
     if isinstance(base, error.XLError):
         return base
     if places is not DEFAULT:
-        places = utils.parse_number(places)
+        places = utils.parse_integer(places)
         if isinstance(places, error.XLError):
             return places
         if places < 0:
